@@ -63,6 +63,11 @@ site('stmt.c', 'stmt', 'expect', 'TSEMICOLON after expression statement',
 site('stmt.c', 'stmt', 'expect', "TWHILE after 'do' statement", T('stmt', 'do ; until (0);'), T('stmt', 'do h_v++; h_v--; while (0);'))
 
 # ------------------------------------------------------------------ init.c
+site('init.c', 'focus', 'error', 'too many initializers for type',
+     T('decl', 'int a_[0] = { 1 };', gcc='zero-length arrays are a GNU extension: gcc rejects the declaration itself with -pedantic-errors', note='regression (fixed ad95414): was an assertion failure in emitdata'),
+     T('decl', 'struct { int n_; int a_[0]; } x_ = { 1, 2 };', gcc='GNU zero-length array'), T('bdecl', 'int a_[0] = { 1 };', gcc='GNU zero-length array'))
+site('init.c', 'parseinit', 'error', 'initializer specified for function type',
+     T('expr', '(ft_){ 1 }, 1', pre='typedef int ft_(void);', note='regression (fixed ad95414): was an assertion failure'), T('expr', 'sizeof(ft_){ 1 }', pre='typedef int ft_(void);'))
 site('init.c', 'advance', 'error', 'too many initializers for type',
      T('decl', 'int a_[2] = { 1, 2, 3 };'), T('decl', 'struct s_ x_ = { 1, { 1, 2, 3 }, { 4 }, 5 };', pre=PI),
      T('decl', 'int a_[2][2] = { { 1, 2, 3 } };'), T('decl', 'struct { int a, b; } x_ = { 1, 2, 3 };'), T('decl', 'char a_[2][2] = { 1, 2, 3, 4, 5 };'),
